@@ -130,6 +130,96 @@ def history_job(a):
     return (W, H, rows, enc, len(seen), transitions, maxdepth, bad, len(xs))
 
 
+def replay_job(a):
+    """
+    Histories replayed on a FRESH encoder and a fresh destination.
+
+    The fixpoint exploration above restores only the visible state
+    (destination, scratch arrays); an encoder that remembers anything else
+    (e.g. its last input) is only exposed if whole histories are replayed on
+    one live object. All histories of length <= 3 over decode(x) for every
+    x, fill(-1), fill(max), rows(other decoding) are replayed when the
+    permutation alphabet is small; otherwise all histories of length 2 and
+    the length-3 shapes [decode x, any op, decode x].
+    """
+    from moptipyapps.binpacking2d.encodings.ibl_encoding_1 import (
+        ImprovedBottomLeftEncoding1,
+    )
+    from moptipyapps.binpacking2d.encodings.ibl_encoding_2 import (
+        ImprovedBottomLeftEncoding2,
+    )
+    from moptipyapps.binpacking2d.packing import Packing
+    from moptipyapps.binpacking2d.packing_space import PackingSpace
+    W, H, rows, enc = a
+    inst = C.make_instance(W, H, rows)
+    n = inst.n_items
+    cls = ImprovedBottomLeftEncoding1 if enc == 1 \
+        else ImprovedBottomLeftEncoding2
+    xs = [tuple(x) for x in C.signed_perms(rows)]
+    expect = {}
+    for x in xs:
+        r, nb = P.model_decode(x, np.asarray(inst), W, H, enc)
+        expect[x] = (r.astype(np.int64), int(nb))
+    other = expect[xs[-1]][0].copy()
+    other[:, 1] = 1
+    space = PackingSpace(inst)
+    src = Packing(inst)
+    src[:, :] = expect[xs[0]][0]
+    src.n_bins = expect[xs[0]][1]
+    mx = int(np.iinfo(inst.dtype).max)
+    nond = [("fill", -1), ("fill", mx), ("rows", None), ("copy", None)]
+    ops = [("decode", x) for x in xs] + nond
+    try:
+        from moptipy.spaces.signed_permutations import SignedPermutations
+        xx = SignedPermutations(inst.get_standard_item_sequence()).create()
+    except ValueError:
+        xx = np.zeros(n, inst.dtype)
+
+    def seqs():
+        for o1 in ops:
+            for o2 in ops:
+                yield (o1, o2)
+        if len(xs) <= 48:
+            for o1 in ops:
+                for o2 in ops:
+                    for o3 in ops:
+                        if o3[0] == "decode":
+                            yield (o1, o2, o3)
+        else:
+            for x in xs:
+                for o2 in ops:
+                    yield (("decode", x), o2, ("decode", x))
+
+    cnt = 0
+    steps = 0
+    for sq in seqs():
+        eo = cls(inst)
+        dest = Packing(inst)
+        dest.fill(-1)
+        cnt += 1
+        for op in sq:
+            steps += 1
+            if op[0] == "decode":
+                xx[:] = op[1]
+                eo.decode(xx, dest)
+                er, enb = expect[op[1]]
+                if dest.n_bins != enb or \
+                        not np.array_equal(np.asarray(dest), er):
+                    return (W, H, rows, enc, cnt, steps,
+                            ([list(o) if o[1] is None or isinstance(
+                                o[1], int) else [o[0], list(o[1])]
+                              for o in sq],
+                             (np.asarray(dest).tolist(), dest.n_bins),
+                             (er.tolist(), enb)))
+            elif op[0] == "fill":
+                dest.fill(op[1])
+            elif op[0] == "rows":
+                dest[:, :] = other
+            else:
+                space.copy(dest, src)
+    return (W, H, rows, enc, cnt, steps, None)
+
+
 def history_instances(ctx):
     li = [(2, 2, [[2, 1, 2], [1, 1, 1]]),
           (3, 3, [[2, 2, 2], [1, 3, 1]]),
@@ -208,6 +298,21 @@ def run(ctx: Ctx) -> None:
                 f"{hist} the decoder gives {got} but the rule gives {exp}",
                 {"W": W, "H": H, "rows": rows, "enc": enc,
                  "history": hist})
+    out = pmap(replay_job, jobs, ctx.jobs)
+    for (W, H, rows, enc, cnt, steps, bad) in out:
+        hs += cnt
+        ht += steps
+        ctx.part(f"replayed_histories_{W}x{H}_{rows}_ibf{enc}",
+                 histories=cnt, operations=steps)
+        if bad is not None:
+            hist, got, exp = bad
+            ctx.violation(
+                f"ibf{enc}|result depends on history",
+                f"bin {W}x{H} items={rows} encoding {enc}: history {hist} "
+                f"replayed on a fresh encoder and destination: the last "
+                f"decode gives {got} but the rule gives {exp}",
+                {"W": W, "H": H, "rows": rows, "enc": enc,
+                 "history": hist})
     ctx.add("states", hs)
     ctx.add("transitions", ht)
     ctx.add("traces_validated_against_impl", ht)
@@ -233,8 +338,9 @@ def replay(ctx: Ctx, rep: dict) -> bool:
     inst = C.make_instance(W, H, rows)
     if "history" in rep:
         r = history_job((W, H, rows, enc))
-        print(r[7])
-        return r[7] is None
+        r2 = replay_job((W, H, rows, enc))
+        print(r[7], r2[6])
+        return r[7] is None and r2[6] is None
     x = rep["x"]
     got, nb, _ = C.public_decode(inst, enc, x, poison=-1)
     er, enb = P.model_decode(x, np.asarray(inst), W, H, enc)
